@@ -142,8 +142,8 @@ def rule_all(ctx, M, u):
     bi = u.bi
     ft = scan.self_field("completed")
     target = n_target(u)
-    guard = flow.edges_where(bi, ft, "Eq", target)
-    not_done = flow.edges_where(bi, ft, "Ne", target)
+    guard = flow.edges_where(bi, ft, "Eq", target, bounded=True)
+    not_done = flow.edges_where(bi, ft, "Ne", target, bounded=True)
     rets = flow.returns_of(bi, "Ready(Err)")
     fields, cb, cbi = ctor_fields(M, u.member)
     ctx.check((fields or {}).get("completed") == ("const", 0), "C07.ALL", cb.def_ if cb else u.where, "%s: `completed` starts at 0" % u.label,
